@@ -4,7 +4,7 @@ import json
 from fractions import Fraction
 
 from core.exact import Ex, rs, recover
-from core.rng import patched
+from core.rng import SemanticRandom, installed
 from core.runner import Prop
 
 
@@ -50,12 +50,17 @@ class C06(Prop):
                 box = itertools.product(*[range(lo, hi + 1) for lo, hi in bounds])
                 c["fp"] = [[list(k), q()] for k in box]
             else:
-                zero = rng.random() < 0.06
+                zero = rng.random() < 0.06 and kind != "marginal_sampled"
                 c["fs"] = [[[k, "0" if zero else q()] for k in range(0, 8)] for _ in range(T)]
                 if kind == "marginal_sampled":
                     n = rng.randint(1, 30)
                     c["n"] = n
                     c["cols"] = [[rng.randint(lo, hi) for _ in range(n)] for lo, hi in bounds]
+                    # random.choices refuses weights whose total is zero (ValueError): a marginal without mass on its range has
+                    # nothing to sample and is left out of the sampled cases (direct mode covers the zero-mass branch)
+                    for i, (lo, hi) in enumerate(bounds):
+                        if all(Fraction(c["fs"][i][x][1]) == 0 for x in range(lo, hi + 1)):
+                            c["fs"][i][lo][1] = "1"
         return c
 
     def _params(self, case):
@@ -98,23 +103,35 @@ class C06(Prop):
         import random
         from gcmpy.joint_degree.joint_degree_factory import JointDegreeFactory
         from gcmpy.joint_degree.joint_degree_distribution import JointDegreeDistribution
-        log = []
+        cols = case.get("cols", [[]])
 
-        def fake_choices(population, weights=None, *, cum_weights=None, k=1):
-            i = len(log) % max(1, len(case.get("cols", [[]])))
-            log.append([list(population), [rs(w) for w in weights], k])
-            return list(case["cols"][i])[:k]
+        class R(SemanticRandom):
+            """the i-th batch of weighted draws is dimension i's column of sampled degrees, the t-th draw its t-th entry"""
+
+            def __init__(self):
+                super().__init__()
+                self.calls = []
+
+            def on_weighted(self, weights, ctx):
+                if ctx["t"] == 0:
+                    self.calls.append([list(ctx["population"]), [rs(w) for w in weights], ctx["k"]])
+                col = cols[(len(self.calls) - 1) % max(1, len(cols))]
+                pop = list(ctx["population"])
+                if ctx["t"] < len(col) and col[ctx["t"]] in pop:
+                    return pop.index(col[ctx["t"]])
+                return super().on_weighted(weights, ctx)
         res = {}
         for path in ("direct", "load"):
             p, t = self._params(case)
-            log.clear()
+            sem = R()
             try:
-                with patched(random, "choices", fake_choices):
+                with installed(sem):
                     if path == "direct":
                         obj = JointDegreeFactory.resolve_joint_degree(t, p)
                     else:
                         obj = JointDegreeDistribution.load_joint_degree(p)
-                res[path] = {"table": self._table(obj, case), "calls": list(log), "class": type(obj).__name__}
+                res[path] = {"table": self._table(obj, case), "calls": list(sem.calls), "class": type(obj).__name__,
+                             "rng_unexpected": sem.summary()["n_unexpected"]}
             except ZeroDivisionError:
                 res[path] = {"exc": "ZeroDivisionError"}
         return res
@@ -127,7 +144,7 @@ class C06(Prop):
     def model(self, case, reply, obs):
         if "exc" in reply:
             return {"direct": {"exc": reply["exc"]}}
-        m = {"table": reply["table"]}
+        m = {"table": sorted(reply["table"])}           # a mapping: insertion order is incidental
         if case["kind"] == "marginal_sampled":
             m["calls"] = reply["calls"]
         return {"direct": m}
@@ -138,7 +155,7 @@ class C06(Prop):
         d = obs["direct"]
         if "exc" in d:
             return {"direct": d}
-        p = {"table": [[k, v] for k, v, _ in d["table"]]}
+        p = {"table": sorted([k, v] for k, v, _ in d["table"])}
         if case["kind"] == "marginal_sampled":
             p["calls"] = d["calls"]
         return {"direct": p}
